@@ -97,11 +97,19 @@ def history(draw):
             ops.append((k,))
     return {"symlink": draw(st.integers(0, 3)) == 0,
             "detect": draw(st.booleans()), "rw": draw(st.booleans()), "buffering": draw(st.sampled_from([-1, 0])),
-            "end": draw(st.sampled_from(["close", "with", "with_exc", "facade_with", "close_armed"])), "ops": ops}
+            "end": draw(st.sampled_from(["close", "with", "with_exc", "facade_with", "close_armed", "with_oserror",
+                                         "facade_with_exc", "facade_with_oserror"])), "ops": ops}
 
 
 class Boom(Exception):
     pass
+
+
+class BoomOS(OSError):
+    """an exception of the OSError family leaving a with block (what an unplugged device raises)"""
+
+
+BOOMS = {"with_exc": Boom, "with_oserror": BoomOS, "facade_with_exc": Boom, "facade_with_oserror": BoomOS}
 
 
 def run_history(case):
@@ -257,14 +265,16 @@ def run_history(case):
                     body(dev, s)
             except OSError as e:
                 final_exc = e
-        elif end == "with_exc":
+        elif end in BOOMS:
+            # the block is left by an exception (an ordinary one, or one of the OSError family): it reaches
+            # the caller and the handle is released all the same
+            s = SCSI(None)
+            s.device = dev
             try:
-                with dev:
-                    s = SCSI(None)
-                    s.device = dev
+                with (dev if end.startswith("with") else s):
                     body(dev, s)
-                    raise Boom()
-            except Boom:
+                    raise BOOMS[end]("leaving the block")
+            except (Boom, BoomOS):
                 pass
             except OSError as e:
                 final_exc = e
